@@ -335,6 +335,106 @@ func richTour(u *universe, w *hWorld) []func() *worldOp {
 		tx(u.U[3], u.U[3], "ESDTNFTCreate", hi, be(1), []byte("hi4"), be(2), []byte("hash-hi-u3"), []byte("attr"), []byte("uri")),
 		tx(u.U[0], u.U[0], "ESDTNFTCreate", hi, be(1), []byte("hi5"), be(2), []byte("hash-hi-u0b"), []byte("attr"), []byte("uri")),
 	)
+	// ---- shapes of state and flag combinations (round 4) ----
+	tweak := func(f func() *worldOp, t func(cs *callSpec)) func() *worldOp {
+		return func() *worldOp { op := f(); t(op.Call); return op }
+	}
+	raeCB := func(cs *callSpec) { cs.RAE, cs.CallType = true, vmcommon.AsynchronousCallBack }
+	raeDirect := func(cs *callSpec) { cs.RAE = true }
+	whole := func(a, tok []byte) []byte { // the account's whole balance of a fungible token, at the time of the step
+		acc := w.shards[w.shardOf(a)%uint32(w.nShards)].account(a)
+		return balanceOf(acc, string(tok)).Bytes()
+	}
+	arrival := func(caller, rcpt []byte, fn string, args ...[]byte) func() *worldOp { // destination-side execution written by hand
+		return func() *worldOp {
+			sh := w.shardOf(rcpt)
+			if int(sh) >= w.nShards {
+				sh = 0
+			}
+			return &worldOp{Kind: opTx, Call: &callSpec{Shard: sh, Fn: fn, Caller: caller, Rcpt: rcpt, Args: args, Value: big.NewInt(0), Gas: bigGas,
+				Snd: false, Dst: true, FailAt: -1}}
+		}
+	}
+	fresh := userAddr(0x31) // holds nothing, lives on the default shard
+	// (a) the new holder of a create role already holds that role (granted before), same shard and across shards: the counter must still move
+	l = append(l,
+		sysAs(u.SC, u.U[1], u.U[1], "ESDTSetRole", u.NFTs[1], []byte("ESDTRoleNFTCreate"), []byte("ESDTRoleNFTAddQuantity")),
+		sysAs(u.SC, u.U[0], u.U[0], "ESDTNFTCreateRoleTransfer", u.NFTs[1], u.U[1]),
+		tx(u.U[1], u.U[1], "ESDTNFTCreate", u.NFTs[1], be(2), []byte("after-handover"), be(1), []byte("hash-ah"), []byte("attr"), []byte("uri")),
+		sysAs(u.SC, u.U[3], u.U[3], "ESDTSetRole", u.NFTs[1], []byte("ESDTRoleNFTAddQuantity"), []byte("ESDTRoleNFTCreate")),
+		sysAs(u.SC, u.U[1], u.U[1], "ESDTNFTCreateRoleTransfer", u.NFTs[1], u.U[3]),
+		tx(u.U[3], u.U[3], "ESDTNFTCreate", u.NFTs[1], be(2), []byte("after-handover-2"), be(1), []byte("hash-ah2"), []byte("attr"), []byte("uri")),
+		tx(u.U[1], u.U[1], "ESDTNFTCreate", u.NFTs[1], be(1), []byte("old-holder"), be(1), []byte("hash-old"), []byte("attr"), []byte("uri")),
+	)
+	// (b) a frozen CONTRACT destination and a transfer that carries an attached call (the credit must still be refused), all three functions,
+	//     sender side and arrival from the other shard; the same with the token paused
+	l = append(l,
+		sysAs(u.SC, u.K[0], u.K[0], "ESDTFreeze", u.Fung[2]),
+		tx(u.U[0], u.K[0], "ESDTTransfer", u.Fung[2], be(5), []byte("fn"), []byte("a")),
+		tx(u.U[0], u.U[0], "MultiESDTNFTTransfer", tkMulti(u.K[0], u.Fung[2], nil, be(5), []byte("fn"))...),
+		arrival(u.U[2], u.K[0], "ESDTTransfer", u.Fung[2], be(5), []byte("fn"), []byte("a")),
+		arrival(u.U[2], u.K[0], "MultiESDTNFTTransfer", be(1), u.Fung[2], []byte{0}, be(5), []byte("fn")),
+		sysAs(u.SC, u.K[0], u.K[0], "ESDTUnFreeze", u.Fung[2]),
+		sysAs(u.SC, u.K[0], u.SYS, "ESDTPause", u.Fung[2]),
+		arrival(u.U[2], u.K[0], "ESDTTransfer", u.Fung[2], be(5), []byte("fn"), []byte("a")),
+		tx(u.U[0], u.K[0], "ESDTTransfer", u.Fung[2], be(5), []byte("fn")),
+		sysAs(u.SC, u.K[0], u.SYS, "ESDTUnPause", u.Fung[2]),
+	)
+	// (c) a frozen account spends EXACTLY its whole balance in a call flagged return-after-error (the only way it can be debited): the
+	//     zero-balance entry must stay, with its flag; right after it, an account without any entry for the token receives some
+	l = append(l,
+		sysAs(u.SC, u.U[1], u.U[1], "ESDTFreeze", u.Fung[0]),
+		func() *worldOp {
+			op := tx(u.U[1], u.U[0], "ESDTTransfer", u.Fung[0], whole(u.U[1], u.Fung[0]))()
+			raeCB(op.Call)
+			return op
+		},
+		tx(u.U[0], fresh, "ESDTTransfer", u.Fung[0], be(1)),
+		tx(u.U[0], u.U[1], "ESDTTransfer", u.Fung[0], be(1)), // still frozen: refused
+		sysAs(u.SC, u.U[1], u.U[1], "ESDTFreeze", u.Fung[2]),
+		func() *worldOp {
+			op := tx(u.U[1], u.SC, "ESDTBurn", u.Fung[2], whole(u.U[1], u.Fung[2]))()
+			raeDirect(op.Call)
+			return op
+		},
+		tx(u.U[0], fresh, "ESDTTransfer", u.Fung[2], be(1)),
+		tx(u.U[0], u.U[1], "ESDTTransfer", u.Fung[2], be(1)), // still frozen: refused
+		tweak(arrival(u.U[2], u.U[1], "ESDTTransfer", u.Fung[2], be(3)), raeCB), // a refund onto the frozen zero-balance entry: accepted
+		tx(u.U[0], fresh, "ESDTTransfer", u.Fung[2], be(1)),
+		sysAs(u.SC, u.U[1], u.U[1], "ESDTUnFreeze", u.Fung[0]),
+	)
+	// (d) the freeze gate on the DESTINATION's own entry when the payability check is not required: attached call, transfer-and-execute,
+	//     callback, all for a fungible and an NFT entry through the multi-transfer and the two single transfers (U[1] is still frozen for Fung[2])
+	for _, t := range []func(cs *callSpec){
+		func(cs *callSpec) { cs.Args = append(cs.Args, []byte("fn")) },
+		func(cs *callSpec) { cs.CallType = vmcommon.ESDTTransferAndExecute },
+		func(cs *callSpec) { cs.CallType = vmcommon.AsynchronousCallBack },
+		func(cs *callSpec) { cs.CallType = vmcommon.AsynchronousCall },
+	} {
+		l = append(l,
+			tweak(tx(u.U[0], u.U[0], "MultiESDTNFTTransfer", tkMulti(u.U[1], u.Fung[2], nil, be(2))...), t),
+			tweak(tx(u.U[0], u.U[1], "ESDTTransfer", u.Fung[2], be(2)), t),
+			tweak(tx(u.U[0], u.U[0], "MultiESDTNFTTransfer", tkMulti(u.U[1], u.Fung[0], nil, be(1), u.Fung[2], nil, be(2))...), t),
+		)
+	}
+	l = append(l, sysAs(u.SC, u.U[1], u.U[1], "ESDTUnFreeze", u.Fung[2]))
+	// (e) role lists: the same role named twice in an unset, where it is the last one stored; set with duplicates; unset of everything
+	rol := []byte("ROL-0a0b0c")
+	l = append(l,
+		sysAs(u.SC, u.U[1], u.U[1], "ESDTSetRole", u.Fung[2], []byte("ESDTRoleLocalBurn"), []byte("ESDTRoleLocalMint")),
+		sysAs(u.SC, u.U[1], u.U[1], "ESDTUnSetRole", u.Fung[2], []byte("ESDTRoleLocalMint"), []byte("ESDTRoleLocalMint")),
+		sysAs(u.SC, u.U[1], u.U[1], "ESDTSetRole", rol, []byte("ESDTRoleNFTCreate")),
+		sysAs(u.SC, u.U[1], u.U[1], "ESDTUnSetRole", rol, []byte("ESDTRoleNFTCreate"), []byte("ESDTRoleNFTCreate")),
+		sysAs(u.SC, u.U[1], u.U[1], "ESDTSetRole", rol, []byte("ESDTRoleNFTBurn"), []byte("ESDTRoleNFTBurn"), []byte("ESDTRoleNFTCreate")),
+		sysAs(u.SC, u.U[1], u.U[1], "ESDTUnSetRole", rol, []byte("ESDTRoleNFTCreate"), []byte("ESDTRoleNFTBurn"), []byte("ESDTRoleNFTCreate"), []byte("x")),
+	)
+	// (f) freeze, then wipe, of keys of odd shapes (short identifiers, nothing or little after the last '-', an NFT key whose nonce byte is '-')
+	for _, id := range [][]byte{[]byte("TKN-a1"), []byte("AB"), []byte("X-"), []byte("-"), nil, append(append([]byte{}, u.NFTs[1]...), 0x2d), append(append([]byte{}, u.HiTok...), 1)} {
+		l = append(l,
+			sysAs(u.SC, u.U[3], u.U[3], "ESDTFreeze", id),
+			sysAs(u.SC, u.U[3], u.U[3], "ESDTWipe", id),
+		)
+	}
 	// a pause addressed to the non-canonical system-account address, a transfer of the token on that shard, the unpause
 	l = append(l,
 		sysAs(u.SC, u.U[0], u.SysVar, "ESDTPause", u.Fung[2]),
